@@ -98,6 +98,7 @@ static void memset_case(uint64_t off, bool null_start, i128 n_in, mon::Rng& rng)
   R.unpoison();
   mon::evals();
   std::string what = mon::fmt("memset(start=%s%llu, n=%s as %s)", null_start ? "null+" : "base+", (unsigned long long)off, mon::i128s(n).c_str(), numform[NumForm]);
+  { static int ns = 0; if (ns++ % 4001 == 0) mon::sample(mon::fmt("{\"request\":\"%s\",\"legal_by_reference\":%s,\"aborted\":%s}", what.c_str(), legal ? "true" : "false", ab ? "true" : "false")); }
   if (n == 0) {
     // empty request: no prescribed outcome; but nothing may be written
     if (!ab && R.diff_none() >= 0) report("memset", "empty-request-wrote-memory", what);
@@ -167,6 +168,7 @@ static void memcpy_case(uint64_t doff, bool dnull, SrcKind sk, uint64_t soff, i1
   R.unpoison();
   mon::evals();
   std::string what = mon::fmt("memcpy(dest=%s%llu, src=%s@%llu, n=%s)", dnull ? "null+" : "base+", (unsigned long long)doff, srckind[sk], (unsigned long long)soff, mon::i128s(n).c_str());
+  { static int ns = 0; if (ns++ % 5003 == 0) mon::sample(mon::fmt("{\"request\":\"%s\",\"legal_by_reference\":%s,\"aborted\":%s}", what.c_str(), legal ? "true" : "false", ab ? "true" : "false")); }
   if (n == 0) { if (!ab && R.diff_none() >= 0) report("memcpy", "empty-request-wrote-memory", what); n_empty++; return; }
   if (!legal) {
     if (!ab) report("memcpy", (!dlegal) ? "illegal-destination-proceeded" : "illegal-source-proceeded", what);
@@ -223,6 +225,7 @@ static void memcmp_case(uint64_t aoff, SrcKind sk, uint64_t soff, i128 n, bool t
   R.unpoison();
   mon::evals();
   std::string what = mon::fmt("memcmp(a=base+%llu, b=%s@%llu, n=%s)", (unsigned long long)aoff, srckind[sk], (unsigned long long)soff, mon::i128s(n).c_str());
+  { static int ns = 0; if (ns++ % 5003 == 0) mon::sample(mon::fmt("{\"request\":\"%s\",\"legal_by_reference\":%s,\"aborted\":%s}", what.c_str(), legal ? "true" : "false", ab ? "true" : "false")); }
   if (n == 0) { n_empty++; return; }
   if (!legal) {
     if (!ab) report("memcmp", (!alegal) ? "illegal-first-range-proceeded" : "illegal-second-range-proceeded", what);
@@ -269,6 +272,7 @@ static void range_ops(mon::Rng& rng)
         R.unpoison();
         mon::evals();
         std::string what = mon::fmt("copy_and_verify_range<%s>(start=base+%llu, count=%s) guest element %zu bytes", tn, (unsigned long long)off, mon::i128s(cnt).c_str(), gs);
+        { static int ns = 0; if (ns++ % 701 == 0) mon::sample(mon::fmt("{\"request\":\"%s\",\"legal_by_reference\":%s,\"aborted\":%s}", what.c_str(), legal_g ? "true" : "false", ab ? "true" : "false")); }
         if (cnt == 0) { n_empty++; }
         else if (!legal_g) { if (!ab && got_data) report("copy_and_verify_range", "illegal-request-proceeded", what); else n_illegal_abort++; }
         else if (ab || !got_data) report("copy_and_verify_range", "legal-request-aborted", what);
@@ -393,6 +397,7 @@ static void grant_deny(mon::Rng& rng)
     bool ab = mon::aborts([&] { res = copy_memory_or_grant_access(*SB, src, n, false, copied); });
     mon::evals();
     std::string what = mon::fmt("copy_memory_or_grant_access<%s>(num=%s)", tn, mon::i128s(num).c_str());
+    { static int ns = 0; if (ns++ % 9 == 0) mon::sample(mon::fmt("{\"request\":\"%s\",\"fits\":%s,\"aborted\":%s}", what.c_str(), fits ? "true" : "false", ab ? "true" : "false")); }
     uintptr_t ra = reinterpret_cast<uintptr_t>(res.UNSAFE_unverified());
     if (fits) {
       if (ab || !copied || ra == 0) report("copy_memory_or_grant_access", "legal-request-failed", what);
